@@ -26,7 +26,7 @@ struct pkt_rec { uint8_t type, qos, rc; bool dup, retain, has_rc; uint16_t pid; 
 // one user operation
 struct op_rec { int kind; int done; int ec; int rc; int rcs[3]; int nrcs; bool inline_completion; int64_t t_done; uint16_t pid_seen; };
 // one message handed to the application by async_receive
-struct msg_rec { int ec; uint8_t topic0, topic1; uint8_t payload0, payload1; uint32_t tlen, plen; bool has_exp; uint32_t exp; int nprops; };
+struct msg_rec { int ec; bool session_expired; uint8_t topic0, topic1; uint8_t payload0, payload1; uint32_t tlen, plen; bool has_exp; uint32_t exp; int nprops; };
 
 struct W {
   client_t* cp = new client_t(vk::executor{});
@@ -167,7 +167,7 @@ struct W {
     receive_pending++; in_api = true;
     c.async_receive([this](error_code ec, std::string topic, std::string payload, publish_props props) {
       receive_pending--; vk_assert(nmsgs < MAXMSG, "harness: message capacity"); msg_rec& m = msgs[nmsgs++];
-      m.ec = ec.value(); m.tlen = (uint32_t)topic.size(); m.plen = (uint32_t)payload.size();
+      m.ec = ec.value(); m.session_expired = (ec == boost::mqtt5::client::error::session_expired); m.tlen = (uint32_t)topic.size(); m.plen = (uint32_t)payload.size();
       m.topic0 = topic.size() > 0 ? (uint8_t)topic[0] : 0; m.topic1 = topic.size() > 1 ? (uint8_t)topic[1] : 0;
       m.payload0 = payload.size() > 0 ? (uint8_t)payload[0] : 0; m.payload1 = payload.size() > 1 ? (uint8_t)payload[1] : 0;
       m.has_exp = props[prop::message_expiry_interval].has_value(); m.exp = m.has_exp ? *props[prop::message_expiry_interval] : 0;
